@@ -8,6 +8,7 @@ Environment: assoc.dimse is a stand-in holding the peer's response stream (an ex
 DIMSE timeout); association.decode is replaced by a stub that raises for the identifiers marked
 undecodable (dataset decoding itself is pydicom's, DESIGN C25).
 """
+from io import BytesIO
 from typing import List
 
 from vlib.shim import *  # noqa: F401,F403
@@ -27,6 +28,16 @@ from spec import assoc_e as spec
 
 silence_loggers()
 
+
+def _rng(xs, lo, hi):
+    """all(lo <= x <= hi for x in xs) with early exit (CrossHair's all() does not short-circuit)"""
+    for x in xs:
+        if x < lo:
+            return False
+        if x > hi:
+            return False
+    return True
+
 N_STREAM = tier(2, 3)
 
 TS = UID("1.2.840.10008.1.2")
@@ -39,9 +50,13 @@ class Undecodable(Exception):
     pass
 
 
-def _mk_decode(bad_ids, decoded):
+class BadBytesIO(BytesIO):
+    """An identifier / reply data set that cannot be decoded (recognised by the decode stub)."""
+
+
+def _mk_decode(decoded):
     def fake_decode(b, *a):
-        if b is None or id(b) in bad_ids:
+        if b is None or isinstance(b, BadBytesIO):
             raise Undecodable()
         ds = Dataset()
         decoded.append(ds)
@@ -58,7 +73,6 @@ class PeerStream(RecordingDimse):
         RecordingDimse.__init__(self)
         self.cls, self.kinds, self.codes, self.wrong_cls = cls, kinds, codes, wrong_cls
         self.pos = 0
-        self.bad = set()
 
     def get_msg(self, block=False):
         self.gets += 1
@@ -86,10 +100,10 @@ class PeerStream(RecordingDimse):
         if k == spec.K_NO_STATUS:
             return 1, r
         r.Status = self.codes[i]
-        if k == spec.K_RSP_IDENT_OK or k == spec.K_RSP_IDENT_BAD:
+        if k == spec.K_RSP_IDENT_OK:
             r.Identifier = bio(b"ident")
-            if k == spec.K_RSP_IDENT_BAD:
-                self.bad.add(id(r.Identifier))
+        elif k == spec.K_RSP_IDENT_BAD:
+            r.Identifier = BadBytesIO(b"ident")
         return 1, r
 
 
@@ -104,7 +118,7 @@ def _run_stream(gen_factory, cls, kinds, codes, getmove, repository_query=False)
     assoc.dimse = peer
     decoded = []
     saved = am.decode
-    am.decode = _mk_decode(peer.bad, decoded)
+    am.decode = _mk_decode(decoded)
     try:
         out = []
         gen = gen_factory(assoc)
@@ -178,9 +192,9 @@ _FIRST = lambda ks: [{"first": k} for k in ks]  # noqa: E731
 )
 def find_stream(kinds: List[int], codes: List[int]) -> bool:
     """
-    pre: len(kinds) <= N_STREAM and all(0 <= k <= 4 for k in kinds)
+    pre: len(kinds) <= N_STREAM and _rng(kinds, 0, 4)
     pre: (len(kinds) == 0) if shard("first", -1) < 0 else (len(kinds) >= 1 and kinds[0] == shard("first", -1))
-    pre: len(codes) == len(kinds) and all(0 <= c <= 65535 for c in codes)
+    pre: len(codes) == len(kinds) and _rng(codes, 0, 65535)
     post: _ == True
     """
     return _run_stream(lambda a: a._wrap_find_responses(TS, FIND_MODEL), C_FIND, kinds, codes, False)
@@ -201,9 +215,9 @@ REPO_MODEL = UID("1.2.840.10008.5.1.4.1.1.201.6")   # Repository Query (PS3.4 C.
 )
 def find_stream_repository(kinds: List[int], codes: List[int]) -> bool:
     """
-    pre: 1 <= len(kinds) <= N_STREAM and all(0 <= k <= 4 for k in kinds)
+    pre: 1 <= len(kinds) <= N_STREAM and _rng(kinds, 0, 4)
     pre: kinds[0] == shard("first", 0)
-    pre: len(codes) == len(kinds) and all(0 <= c <= 65535 for c in codes)
+    pre: len(codes) == len(kinds) and _rng(codes, 0, 65535)
     post: _ == True
     """
     return _run_stream(lambda a: a._wrap_find_responses(TS, REPO_MODEL), C_FIND, kinds, codes, False, True)
@@ -224,9 +238,9 @@ def find_stream_repository(kinds: List[int], codes: List[int]) -> bool:
 )
 def getmove_stream(kinds: List[int], codes: List[int]) -> bool:
     """
-    pre: len(kinds) <= N_STREAM and all(0 <= k <= 5 for k in kinds)
+    pre: len(kinds) <= N_STREAM and _rng(kinds, 0, 5)
     pre: (len(kinds) == 0) if shard("first", -1) < 0 else (len(kinds) >= 1 and kinds[0] == shard("first", -1))
-    pre: len(codes) == len(kinds) and all(0 <= c <= 65535 for c in codes)
+    pre: len(codes) == len(kinds) and _rng(codes, 0, 65535)
     post: _ == True
     """
     cls = C_GET if shard("op", "get") == "get" else C_MOVE
@@ -308,7 +322,6 @@ def single_response(kind: int, code: int) -> bool:
         assoc = make_assoc(MODE_REQUESTOR)
         assoc._accepted_cx = {1: mk_cx(VERIF_UID, TS, 1), 3: mk_cx(CT, TS, 3), 5: mk_cx(FILM_SESSION, TS, 5)}
         ds = _store_dataset()
-    bad = set()
     incoming = []
     if kind != R_NOTHING:
         if kind == R_WRONG_TYPE:
@@ -319,15 +332,12 @@ def single_response(kind: int, code: int) -> bool:
         if kind != R_NO_STATUS:
             r.Status = code
         if reply_attr is not None and kind in (R_REPLY_OK, R_REPLY_BAD):
-            b = bio(b"reply")
-            setattr(r, reply_attr, b)
-            if kind == R_REPLY_BAD:
-                bad.add(id(b))
+            setattr(r, reply_attr, bio(b"reply") if kind == R_REPLY_OK else BadBytesIO(b"reply"))
         incoming.append((1, r))
     assoc.dimse = RecordingDimse(incoming)
     decoded = []
     saved = (am.decode, am.encode)
-    am.decode = _mk_decode(bad, decoded)
+    am.decode = _mk_decode(decoded)
     am.encode = lambda d, *a: b"\x00\x00"
     try:
         result = _single_invoke(assoc, op, ds)   # an exception escaping the call is a failure of the property
